@@ -156,6 +156,63 @@ case!(AdjacentChar, "adjacent/char (tag first)", |g| if g.chance(220) { Adjacent
 #[derive(Debug, Clone, PartialEq, Serialize, Deserialize)] #[serde(tag = "t", content = "c")] pub enum AdjacentUnit { A(()), B }
 case!(AdjacentUnit, "adjacent/unit (tag first)", |g| if g.chance(220) { AdjacentUnit::A(()) } else { AdjacentUnit::B });
 
+// ---- floats with every bit pattern (NaN payloads included): equality by bits --------------------
+#[derive(Debug, Clone, Copy, Serialize, Deserialize)] #[serde(transparent)] pub struct F32b(pub f32);
+impl PartialEq for F32b { fn eq(&self, o: &Self) -> bool { self.0.to_bits() == o.0.to_bits() } }
+#[derive(Debug, Clone, Copy, Serialize, Deserialize)] #[serde(transparent)] pub struct F64b(pub f64);
+impl PartialEq for F64b { fn eq(&self, o: &Self) -> bool { self.0.to_bits() == o.0.to_bits() } }
+case!(F32b, "f32 (all bit patterns)", |g| F32b(f32::from_bits(g.f32_bits())));
+case!(F64b, "f64 (all bit patterns)", |g| F64b(f64::from_bits(g.f64_bits())));
+#[derive(Debug, Clone, PartialEq, Serialize, Deserialize)] pub struct Floats { pub a: F32b, pub b: F64b, pub v: Vec<F32b>, pub o: Option<F64b> }
+case!(Floats, "Floats", top, |g| Floats { a: F32b::gen(g), b: F64b::gen(g), v: vecof(g, F32b::gen), o: opt(g, F64b::gen) });
+
+// ---- every self-describing leaf kind in the contexts that go through deserialize_any ----------------
+/// Variants are tried in declaration order; the generator only produces values that the earlier variants refuse
+/// (serde's own `String` visitor accepts UTF-8 byte strings, hence the byte buffer comes before the text).
+#[derive(Debug, Clone, PartialEq, Serialize, Deserialize)] #[serde(untagged)]
+pub enum UntaggedWide { B(bool), I(i64), U(u64), F(f64), Y(Buf), T(String), O(Option<u8>), L(Vec<i8>), M(BTreeMap<String, i16>), P(i8, String) }
+case!(UntaggedWide, "UntaggedWide", |g| match g.below(10) {
+    0 => UntaggedWide::B(g.bool()), 1 => UntaggedWide::I(g.i64()), 2 => UntaggedWide::U(g.u64() | (1 << 63)), 3 => UntaggedWide::F(f64n(g)),
+    4 => UntaggedWide::T(s(g)), 5 => UntaggedWide::Y(Buf(g.bytes(20))), 6 => UntaggedWide::O(None),
+    7 => UntaggedWide::L(vecof(g, |g| g.i8())), 8 => UntaggedWide::M({ let n = g.below(4); (0 .. n).map(|_| (s(g), g.i16())).collect() }),
+    _ => UntaggedWide::L(vec![g.i8()]) });
+#[derive(Debug, Clone, PartialEq, Serialize, Deserialize)] pub struct InnerWide { pub i: i64, pub u: u64, pub f: f64, pub g: f32, pub b: bool, pub o: Option<u8>, pub t: String, pub v: Vec<i16>, pub m: BTreeMap<String, u8>, pub n: i8, pub y: Buf, pub p: (u8, bool), pub w: NewT }
+impl InnerWide { fn gen(g: &mut Gen) -> Self { InnerWide { i: g.i64(), u: g.u64(), f: f64n(g), g: f32n(g), b: g.bool(), o: opt(g, |g| g.u8()), t: s(g), v: vecof(g, |g| g.i16()), m: { let n = g.below(4); (0 .. n).map(|_| (s(g), g.u8())).collect() }, n: g.i8(), y: Buf(g.bytes(12)), p: (g.u8(), g.bool()), w: NewT(g.u32()) } } }
+#[derive(Debug, Clone, PartialEq, Serialize, Deserialize)] pub struct FlatWide { pub id: u32, #[serde(flatten)] pub inner: InnerWide, pub tail: Option<bool> }
+case!(FlatWide, "FlatWide (flatten, every leaf kind)", |g| FlatWide { id: g.u32(), inner: InnerWide::gen(g), tail: opt(g, |g| g.bool()) });
+#[derive(Debug, Clone, PartialEq, Serialize, Deserialize)] #[serde(tag = "kind")] pub enum InternalWide { A(InnerWide), B { x: i64, y: Option<String>, z: Vec<bool> }, C }
+case!(InternalWide, "InternalWide (internally tagged, every leaf kind)", |g| match g.below(3) { 0 => InternalWide::A(InnerWide::gen(g)), 1 => InternalWide::B { x: g.i64(), y: opt(g, s), z: vecof(g, |g| g.bool()) }, _ => InternalWide::C });
+#[derive(Debug, Clone, PartialEq, Serialize, Deserialize)] #[serde(tag = "t", content = "c")] pub enum AdjacentWide { A(InnerWide), B(i64, f64, Option<u8>), C(Vec<Ext>), D }
+case!(AdjacentWide, "AdjacentWide", |g| match g.below(4) { 0 => AdjacentWide::A(InnerWide::gen(g)), 1 => AdjacentWide::B(g.i64(), f64n(g), opt(g, |g| g.u8())), 2 => AdjacentWide::C(vecof(g, Ext::gen)), _ => AdjacentWide::D });
+/// Enums as the LAST element of an unknown-length sequence / LAST value of an unknown-length map.
+#[derive(Debug, Clone, PartialEq)] pub struct LazyExts(pub Vec<Ext>);
+impl Serialize for LazyExts { fn serialize<S: serde::Serializer>(&self, s: S) -> Result<S::Ok, S::Error> { use serde::ser::SerializeSeq; let mut q = s.serialize_seq(None)?; for x in &self.0 { q.serialize_element(x)? } q.end() } }
+impl<'de> Deserialize<'de> for LazyExts { fn deserialize<D: serde::Deserializer<'de>>(d: D) -> Result<Self, D::Error> { Vec::<Ext>::deserialize(d).map(LazyExts) } }
+case!(LazyExts, "LazyExts (enums in an unknown-length seq)", |g| LazyExts(vecof(g, Ext::gen)));
+#[derive(Debug, Clone, PartialEq, Serialize, Deserialize)] pub struct FlatThenEnum { #[serde(flatten)] pub inner: Inner, pub id: u8, pub last: Ext }
+case!(FlatThenEnum, "FlatThenEnum (enum last in a flattened struct)", |g| FlatThenEnum { inner: Inner { p: g.u16(), q: s(g) }, id: g.u8(), last: Ext::gen(g) });
+
+// ---- std types with serde impls of their own ----------------------------------------------------------
+case!(std::time::Duration, "Duration", |g| std::time::Duration::new(g.u64(), g.u32() % 1_000_000_000));
+case!(std::net::IpAddr, "IpAddr", |g| if g.bool() { std::net::IpAddr::V4(std::net::Ipv4Addr::from(g.u32())) } else { std::net::IpAddr::V6(std::net::Ipv6Addr::from(((g.u64() as u128) << 64) | g.u64() as u128)) });
+case!(std::net::SocketAddr, "SocketAddr", |g| std::net::SocketAddr::new(<std::net::IpAddr as Case>::gen(g), g.u16()));
+case!(std::ops::Range<u8>, "Range<u8>", |g| g.u8() .. g.u8());
+case!(std::ops::Bound<i16>, "Bound<i16>", |g| match g.below(3) { 0 => std::ops::Bound::Unbounded, 1 => std::ops::Bound::Included(g.i16()), _ => std::ops::Bound::Excluded(g.i16()) });
+case!(Result<u8, String>, "Result<u8,String>", |g| if g.bool() { Ok(g.u8()) } else { Err(s(g)) });
+case!(std::num::NonZeroU16, "NonZeroU16", |g| std::num::NonZeroU16::new(g.u16().max(1)).unwrap());
+case!(std::num::Wrapping<i8>, "Wrapping<i8>", |g| std::num::Wrapping(g.i8()));
+case!(std::cmp::Reverse<u8>, "Reverse<u8>", |g| std::cmp::Reverse(g.u8()));
+case!(std::marker::PhantomData<u8>, "PhantomData<u8>", |_g| std::marker::PhantomData);
+case!(std::ffi::CString, "CString", |g| { let mut b = g.bytes(20); b.retain(|x| *x != 0); std::ffi::CString::new(b).unwrap() });
+case!(std::path::PathBuf, "PathBuf", |g| std::path::PathBuf::from(s(g)));
+case!(std::collections::BTreeSet<u8>, "BTreeSet<u8>", |g| g.bytes(20).into_iter().collect());
+case!(std::collections::VecDeque<i16>, "VecDeque<i16>", |g| vecof(g, |g| g.i16()).into());
+case!(std::borrow::Cow<'static, str>, "Cow<str>", |g| std::borrow::Cow::Owned(s(g)));
+case!(Box<str>, "Box<str>", |g| s(g).into_boxed_str());
+case!([u8; 32], "[u8;32]", |g| { let mut a = [0u8; 32]; for x in a.iter_mut() { *x = g.byte() } a });
+case!((u8, i8, u16, i16, u32, i32, u64, bool, char, String, Option<u8>, ()), "12-tuple", |g| (g.u8(), g.i8(), g.u16(), g.i16(), g.u32(), g.i32(), g.u64(), g.bool(), g.char(), s(g), opt(g, |g| g.u8()), ()));
+case!(std::collections::HashMap<u8, String>, "HashMap<u8,String>", |g| { let n = g.below(6); (0 .. n).map(|_| (g.u8(), s(g))).collect() });
+
 #[macro_export]
 macro_rules! for_each_case {
     ($mac:ident) => {{
@@ -165,6 +222,11 @@ macro_rules! for_each_case {
             $mac!(Ext), $mac!(HoldsExt), $mac!(Internal), $mac!(Adjacent), $mac!(Untagged), $mac!(Flat), $mac!(FlatMap), $mac!(SkipIf), $mac!(Renamed), $mac!(Lazy), $mac!(Generic<i8>), $mac!(Big),
             $mac!(u64), $mac!(i64), $mac!(i8), $mac!(bool), $mac!(char), $mac!(String), $mac!(()), $mac!(f32), $mac!(f64), $mac!(Option<u32>), $mac!(Vec<u8>), $mac!(Vec<Option<String>>),
             $mac!((u8, (bool, String), [i16; 2])), $mac!(std::collections::BTreeMap<i32, Vec<String>>), $mac!(Buf), $mac!(LazySeq), $mac!(Box<Ext>),
+            $mac!(F32b), $mac!(F64b), $mac!(Floats), $mac!(UntaggedWide), $mac!(FlatWide), $mac!(InternalWide), $mac!(AdjacentWide), $mac!(LazyExts), $mac!(FlatThenEnum),
+            $mac!(std::time::Duration), $mac!(std::net::IpAddr), $mac!(std::net::SocketAddr), $mac!(std::ops::Range<u8>), $mac!(std::ops::Bound<i16>), $mac!(Result<u8, String>),
+            $mac!(std::num::NonZeroU16), $mac!(std::num::Wrapping<i8>), $mac!(std::cmp::Reverse<u8>), $mac!(std::marker::PhantomData<u8>), $mac!(std::ffi::CString), $mac!(std::path::PathBuf),
+            $mac!(std::collections::BTreeSet<u8>), $mac!(std::collections::VecDeque<i16>), $mac!(std::borrow::Cow<'static, str>), $mac!(Box<str>), $mac!([u8; 32]),
+            $mac!((u8, i8, u16, i16, u32, i32, u64, bool, char, String, Option<u8>, ())), $mac!(std::collections::HashMap<u8, String>),
             $mac!(FlatChar), $mac!(FlatUnit), $mac!(UntaggedChar), $mac!(UntaggedUnit), $mac!(InternalChar), $mac!(InternalUnit), $mac!(AdjacentChar), $mac!(AdjacentUnit),
         ]
     }}
